@@ -139,12 +139,18 @@ func ReadPBFWithOptions(r io.Reader, emit EmitWithGoroutine, options ReadOptions
 	wg.Add(cores + 1)
 	go func() {
 		readBlobErr = readBlobs(r, c, ctx)
+	done:
 		for i := 0; i < cores; i++ {
-			c <- &blob{Type: blobTypeDone}
+			select {
+			case c <- &blob{Type: blobTypeDone}:
+			case <-ctx.Done():
+				break done
+			}
 		}
 		wg.Done()
 	}()
 	var readOSMDataErr error
+	var readOSMDataErrLock sync.Mutex
 	for i := 0; i < cores; i++ {
 		go func(goroutine int) {
 			defer wg.Done()
@@ -158,8 +164,11 @@ func ReadPBFWithOptions(r io.Reader, emit EmitWithGoroutine, options ReadOptions
 				case b := <-c:
 					if b.Type == blobTypeOSMData {
 						if err := readOSMDataBlob(b, f, options); err != nil {
+							readOSMDataErrLock.Lock()
 							readOSMDataErr = err
+							readOSMDataErrLock.Unlock()
 							cancel()
+							return
 						}
 					} else if b.Type == blobTypeDone {
 						return
